@@ -77,10 +77,11 @@ Lemma send_tail_conn c m w0 w :
   rv (send_tail c m w0 w) = inr XConn ->
   mkind m = KTestReq /\ send_tail c m w0 w = mkR (inr XConn) w [].
 Proof.
-  unfold send_tail. rewrite bind_unfold.
+  rewrite send_tail_unfold, bind_unfold.
   pose proof (send_write_not_conn c m w) as Hn.
-  destruct (mkind m) eqn:Ek; try (destruct (treq w0)); msimp; try (intros H; congruence).
-  intros _. auto.
+  destruct (treq_gate_cases m w0 w) as [[Hg Hk]|Hg]; rewrite Hg; cbn [rv rw re app].
+  - intros _. auto.
+  - intros H. exfalso. apply Hn. destruct (rv (send_write c m w)); [discriminate|]. cbn in H. exact H.
 Qed.
 
 (* every refusal with FIXConnectionError leaves the whole world and the trace untouched *)
@@ -92,6 +93,33 @@ Proof.
   - reflexivity.
   - intros Hc. destruct (send_tail_conn c m w w Hc) as [_ Ht]. rewrite Ht. reflexivity.
   - intros Hc. destruct (send_tail_conn c m w _ Hc) as [Hkind _]. destruct Hk; congruence.
+Qed.
+
+(* R13c - the TestRequest gate: a TestRequest is refused unless a probe is pending AND the message carries exactly
+   that probe's id (str(_test_req_id)) - so only send_test_req() can put a TestRequest on the wire, one at a time *)
+Lemma testrequest_gate c m w :
+  treq_refuses m w = true -> send_msg c m w = mkR (inr XConn) w [].
+Proof.
+  intros Ht.
+  assert (Hk : mkind m = KTestReq) by (unfold treq_refuses in Ht; destruct (mkind m); try discriminate; reflexivity).
+  unfold send_msg. rewrite bind_unfold. cbn [getw rv rw re app]. rewrite bind_unfold.
+  destruct (send_gate_cases m w) as [H|[H|[H6 [Hk' H]]]]; rewrite H; cbn [rv rw re app].
+  - reflexivity.
+  - rewrite send_tail_unfold, bind_unfold, treq_gate_spec, Ht. reflexivity.
+  - destruct Hk'; congruence.
+Qed.
+
+(* a TestRequest built by the application is refused whatever its id when no probe is pending, and whenever its id
+   is not the pending probe's *)
+Lemma testrequest_needs_pending_id c m w :
+  mkind m = KTestReq ->
+  (treq w = None \/ (exists t, treq w = Some t /\ get T112 (mtags m) <> Some (z_to_dec t))) ->
+  send_msg c m w = mkR (inr XConn) w [].
+Proof.
+  intros Hk H. apply testrequest_gate. unfold treq_refuses. rewrite Hk.
+  destruct H as [H|[t [H Hn]]]; rewrite H; [reflexivity|].
+  destruct (get T112 (mtags m)) as [v|]; [|reflexivity].
+  destruct (str_eqb v (z_to_dec t)) eqn:E; [|reflexivity]. apply str_eqb_eq in E. congruence.
 Qed.
 
 (* refused sends: the world (counters, journal, state) and the trace are unchanged *)
